@@ -2,7 +2,7 @@
     property) and non-vacuity examples, all by evaluation of the model. *)
 From Coq Require Import List ZArith Bool String Lia.
 Import ListNotations.
-Require Import Nib.C08.Model Nib.C08.Spec Nib.C08.Proofs Nib.C08.Ref.
+Require Import Nib.C08.Model Nib.C08.Spec Nib.C08.Proofs Nib.C08.ProofsTx Nib.C08.Ref.
 Local Open Scope Z_scope.
 
 Notation call F p k v g i := (evm_call Z sample_body sample_after_mint sample_transfer F p k v g i 0).
@@ -163,4 +163,89 @@ Lemma gas_charged_refuted_without_capped_meter :
 Proof.
   exists ((30 * 288 + 2000) + 1000). intros r r_ample. split; [vm_compute; reflexivity|]. split; [vm_compute; reflexivity|].
   intro H. specialize (H _ eq_refl). subst r r_ample. vm_compute in H. destruct (H eq_refl) as [A _]. discriminate.
+Qed.
+
+(* ------------------------------------------------------------------ sequences of calls inside one transaction *)
+
+Notation xcall F p k v g i x := (call_x Z Z partial_body partial_after_mint sample_touch sample_transfer_ev F p k v g i x).
+Notation xrun F ops := (tx_run Z Z partial_body partial_after_mint sample_touch sample_transfer_ev F ops x0).
+
+(** SavePrecompileCalledJournalChange that keeps the previous snapshot when the newest journal entry is one already *)
+Definition coalesced_facts : facts := with_snap_each reference_facts false.
+
+Definition a_query : op Z := OCall PWasm KStatic 0 2000000 wasm_query_call.
+Definition a_send_to_bank : op Z := OCall PFunToken KTop 0 3000000 (sendToBank_call 5).
+
+(** Seeded change "precompile snapshot coalesced": Wasm.query, then — with no EVM state change in between —
+    Wasm.executeMulti whose second message is rejected.  The failed call has no journal entry of its own,
+    RevertToSnapshot finds nothing to undo, the write of its first message stays. *)
+Lemma failed_call_leaves_state_refuted_coalesced :
+  exists pre p k gas inp,
+    let x := xrun coalesced_facts pre in
+    let r := xcall coalesced_facts p k 0 gas inp x in
+    is_err (xr_out r) = true /\ x_ms (xr_x r) <> x_ms x.
+Proof.
+  exists [a_query], PWasm, KTop, 5000000, executeMulti_call. vm_compute. split; [reflexivity|discriminate].
+Qed.
+
+(** the same transaction on the tree as it is: the write is gone, the journal is as before the call *)
+Example nonvacuous_failed_call_after_query_restored :
+  let x := xrun reference_facts [a_query] in
+  let r := xcall reference_facts PWasm KTop 0 5000000 executeMulti_call x in
+  xr_out r = Err /\ xr_left r = 0 /\ st_of Z Z (xr_x r) = st_of Z Z x /\ x_j (xr_x r) = x_j x /\ x_cnt (xr_x r) = 2.
+Proof. vm_compute. repeat split; reflexivity. Qed.
+
+(** … after a state-changing call that also wrote the EVM side, and after an EVM state change *)
+Example nonvacuous_failed_call_after_mutation_restored :
+  let x := xrun reference_facts [a_query; a_send_to_bank; OEvm (fun e => e + 7); a_query] in
+  let r := xcall reference_facts PWasm (KCall false) 0 5000000 executeMulti_call x in
+  st_of Z Z x = (8, 1) /\ xr_out r = Err /\ st_of Z Z (xr_x r) = (8, 1) /\ x_j (xr_x r) = x_j x.
+Proof. vm_compute. repeat split; reflexivity. Qed.
+
+(** the coalescing variant goes wrong ONLY right behind a precompile snapshot: alone, behind an EVM state
+    change and behind a call that left EVM journal entries the failed call is reverted *)
+Example coalesced_variant_reverts_elsewhere :
+  x_ms (xr_x (xcall coalesced_facts PWasm KTop 0 5000000 executeMulti_call x0)) = 0 /\
+  (let x := xrun coalesced_facts [a_query; OEvm (fun e => e + 7)] in
+   x_ms (xr_x (xcall coalesced_facts PWasm KTop 0 5000000 executeMulti_call x)) = x_ms x) /\
+  (let x := xrun coalesced_facts [a_send_to_bank] in
+   x_ms (xr_x (xcall coalesced_facts PWasm KTop 0 5000000 executeMulti_call x)) = x_ms x) /\
+  (let x := xrun coalesced_facts [a_query] in
+   x_ms (xr_x (xcall coalesced_facts PWasm KTop 1000000000000 5000000 executeMulti_call x)) = x_ms x).
+Proof. vm_compute. repeat split; reflexivity. Qed.
+
+(** one StateDB admits [f_max_calls] precompile calls: the eleventh fails closed *)
+Example nonvacuous_call_budget :
+  let ten := repeat a_query 10 in
+  x_cnt (xrun reference_facts ten) = 10 /\
+  xr_out (xcall reference_facts PWasm KStatic 0 2000000 wasm_query_call (xrun reference_facts (repeat a_query 9))) = Ok /\
+  (let r := xcall reference_facts PWasm KStatic 0 2000000 wasm_query_call (xrun reference_facts ten) in
+   xr_out r = Err /\ xr_left r = 0 /\ st_of Z Z (xr_x r) = (0, 0)).
+Proof. vm_compute. repeat split; reflexivity. Qed.
+
+(** … and the failed call is visible to the rest of that transaction: leaving it out changes what the
+    transaction commits *)
+Lemma failed_calls_visible_refuted_coalesced :
+  exists ops,
+    x_cnt x0 + Z.of_nat (List.length ops) <= f_max_calls coalesced_facts /\
+    ~ P_tx (st_of Z Z (xrun coalesced_facts ops) =
+            st_of Z Z (tx_run_drop Z Z partial_body partial_after_mint sample_touch sample_transfer_ev coalesced_facts ops x0)).
+Proof.
+  exists [a_query; OCall PWasm KTop 0 5000000 executeMulti_call; a_query]. split; [vm_compute; discriminate|].
+  unfold P_tx. vm_compute. discriminate.
+Qed.
+
+Example nonvacuous_failed_calls_invisible :
+  let ops := [a_query; OCall PWasm KTop 0 5000000 executeMulti_call; a_send_to_bank; OEvm (fun e => e + 7);
+              OCall PWasm (KCall false) 0 5000000 executeMulti_call; a_query] in
+  st_of Z Z (xrun reference_facts ops) = (8, 1) /\
+  st_of Z Z (tx_run_drop Z Z partial_body partial_after_mint sample_touch sample_transfer_ev reference_facts ops x0) = (8, 1) /\
+  x_cnt (xrun reference_facts ops) = 5 /\
+  x_cnt (tx_run_drop Z Z partial_body partial_after_mint sample_touch sample_transfer_ev reference_facts ops x0) = 3.
+Proof. vm_compute. repeat split; reflexivity. Qed.
+
+Example partial_body_queries_readonly : query_bodies_readonly (Z * Z) partial_body partial_after_mint.
+Proof.
+  intros m args st lim H. unfold partial_body, partial_after_mint.
+  destruct m; simpl in H; try discriminate; split; reflexivity.
 Qed.
